@@ -356,8 +356,17 @@ Proof.
     + now apply IH.
 Qed.
 
+(** the own top frame stored in a [modenv] is never consulted for the module itself (local names
+    are resolved through the scopes): only the prefix and the imports count *)
+Definition me_same (m m' : modenv) : Prop :=
+  match m, m' with ME own _ imps, ME own' _ imps' => own = own' /\ imps = imps' end.
+
+Lemma me_same_refl : forall m, me_same m m.
+Proof. intros []. split; reflexivity. Qed.
+
 Definition ctx_ins (g : text) (G : stmt) (cx cx' : ctx) : Prop :=
-  c_mod cx = c_mod cx' /\ ins_rel G (c_scopes cx) (c_scopes cx') /\ clean_scopes g (c_scopes cx).
+  me_same (c_mod cx) (c_mod cx') /\ ins_rel G (c_scopes cx) (c_scopes cx') /\
+  clean_scopes g (c_scopes cx).
 
 Lemma find_grouping_ins : forall g gg gb cx cx' pfx g',
   ctx_ins g (SGrouping g gg gb) cx cx' -> text_eqb g' g = false ->
@@ -368,14 +377,14 @@ Lemma find_grouping_ins : forall g gg gb cx cx' pfx g',
   | _, _ => False
   end.
 Proof.
-  intros g gg gb [sc m] [sc' m'] pfx g' [Hm [Hr Hc]] Hne. cbn [c_mod c_scopes] in *. subst m'.
-  destruct m as [own top imps].
+  intros g gg gb [sc m] [sc' m'] pfx g' [Hm [Hr Hc]] Hne. cbn [c_mod c_scopes] in *.
+  destruct m as [own top imps], m' as [own2 top2 imps2]. destruct Hm as [<- <-].
   assert (Hlocal :
     match (match find_scopes g' sc with
            | Some (grps, body, s) => Some (body, mkCtx (grps :: s) (ME own top imps))
            | None => None end),
           (match find_scopes g' sc' with
-           | Some (grps, body, s) => Some (body, mkCtx (grps :: s) (ME own top imps))
+           | Some (grps, body, s) => Some (body, mkCtx (grps :: s) (ME own top2 imps))
            | None => None end) with
     | Some (b, c), Some (b', c') =>
         b = b' /\ (c = c' \/ (ctx_ins g (SGrouping g gg gb) c c' /\ clean g b = true))
@@ -386,7 +395,7 @@ Proof.
     destruct (find_scopes g' sc) as [[[grps body] s]|], (find_scopes g' sc') as [[[grps' body'] s']|];
       try contradiction; auto.
     destruct H as [<- [<- [Hs [Hcs [Hcg Hcb]]]]]. split; [reflexivity|]. right. split; [|exact Hcb].
-    split; [reflexivity|]. cbn [c_scopes]. split; [now constructor|]. constructor; auto. }
+    split; [split; reflexivity|]. cbn [c_scopes]. split; [now constructor|]. constructor; auto. }
   unfold find_grouping. cbn [c_mod c_scopes].
   destruct pfx as [p|]; [|exact Hlocal].
   destruct (text_eqb p own); [exact Hlocal|].
@@ -447,6 +456,30 @@ Proof.
 Qed.
 
 (** ** grouping_extract *)
+Lemma grouping_extract_gen : forall f fr outer m m' acc g B rest out, me_same m m' ->
+  clean_scopes g (fr :: outer) -> clean g B = true -> clean g rest = true ->
+  (expand (S f) (mkCtx ((SGrouping g [] B :: fr) :: outer) m') acc (SUses None g None [] [] :: rest)
+     = Ok out ->
+   expand (S f) (mkCtx (fr :: outer) m) acc (B ++ rest) = Ok out) /\
+  (expand (S f) (mkCtx (fr :: outer) m) acc (B ++ rest) = Ok out ->
+   expand (S (S f)) (mkCtx ((SGrouping g [] B :: fr) :: outer) m') acc
+          (SUses None g None [] [] :: rest) = Ok out).
+Proof.
+  intros f fr outer m m' acc g B rest out Hm Hcs HB Hrest.
+  assert (Hf : find_in_frame g (SGrouping g [] B :: fr) = Some ([], B)).
+  { cbn [find_in_frame]. now rewrite text_eqb_refl. }
+  destruct (find_grouping_head _ outer m' g B Hf) as [Hg He].
+  assert (Hi : ctx_ins g (SGrouping g [] B) (mkCtx (fr :: outer) m)
+                       (mkCtx ((SGrouping g [] B :: fr) :: outer) m')).
+  { split; [exact Hm|]. split; [constructor|exact Hcs]. }
+  assert (Hc : clean g (B ++ rest) = true) by (rewrite clean_app, HB, Hrest; reflexivity).
+  split; intro H.
+  - rewrite (expand_unused g [] B (S f) _ _ Hi _ acc Hc).
+    eapply uses_unfold_proof; eauto.
+  - eapply uses_fold_proof; eauto.
+    now rewrite <- (expand_unused g [] B (S f) _ _ Hi _ acc Hc).
+Qed.
+
 Lemma grouping_extract_proof : forall f fr outer m acc g B rest out,
   clean_scopes g (fr :: outer) -> clean g B = true -> clean g rest = true ->
   (expand (S f) (mkCtx ((SGrouping g [] B :: fr) :: outer) m) acc (SUses None g None [] [] :: rest)
@@ -455,18 +488,101 @@ Lemma grouping_extract_proof : forall f fr outer m acc g B rest out,
   (expand (S f) (mkCtx (fr :: outer) m) acc (B ++ rest) = Ok out ->
    expand (S (S f)) (mkCtx ((SGrouping g [] B :: fr) :: outer) m) acc
           (SUses None g None [] [] :: rest) = Ok out).
+Proof. intros. apply grouping_extract_gen; auto using me_same_refl. Qed.
+
+(** * module level: the block is a run of top-level data definitions of the main module, the new
+      grouping a top-level grouping of the main module *)
+Lemma apply_augments_mono : forall f cx augs t out,
+  apply_augments f cx augs t = Ok out -> apply_augments (S f) cx augs t = Ok out.
 Proof.
-  intros f fr outer m acc g B rest out Hcs HB Hrest.
-  assert (Hf : find_in_frame g (SGrouping g [] B :: fr) = Some ([], B)).
-  { cbn [find_in_frame]. now rewrite text_eqb_refl. }
-  destruct (find_grouping_head _ outer m g B Hf) as [Hg He].
-  assert (Hi : ctx_ins g (SGrouping g [] B) (mkCtx (fr :: outer) m)
-                       (mkCtx ((SGrouping g [] B :: fr) :: outer) m)).
-  { split; [reflexivity|]. split; [constructor|exact Hcs]. }
-  assert (Hc : clean g (B ++ rest) = true) by (rewrite clean_app, HB, Hrest; reflexivity).
-  split; intro H.
-  - rewrite (expand_unused g [] B (S f) _ _ Hi _ acc Hc).
-    eapply uses_unfold_proof; eauto.
-  - eapply uses_fold_proof; eauto.
-    now rewrite <- (expand_unused g [] B (S f) _ _ Hi _ acc Hc).
+  induction augs as [|s tl IH]; intros t out H; [exact H|].
+  cbn [apply_augments] in *. destruct s; try discriminate.
+  destruct (expand f cx [] body) as [nodes| |] eqn:E; cbn [bind] in H; try discriminate.
+  rewrite (expand_fuel_mono _ _ _ _ _ E). cbn [bind].
+  destruct (update_at path (graft nodes) t) as [t1| |]; cbn [bind] in *; try discriminate.
+  now apply IH.
+Qed.
+
+Lemma apply_augments_unused : forall g gg gb f cx cx', ctx_ins g (SGrouping g gg gb) cx cx' ->
+  forall augs t, clean g augs = true -> apply_augments f cx augs t = apply_augments f cx' augs t.
+Proof.
+  intros g gg gb f cx cx' Hc. induction augs as [|s tl IH]; intros t Hcl; [reflexivity|].
+  rewrite clean_cons in Hcl. apply andb_true_iff in Hcl. destruct Hcl as [Hs Ht].
+  cbn [apply_augments]. destruct s; try reflexivity.
+  rewrite mentions_augment in Hs. fold (clean g body) in Hs.
+  rewrite (expand_unused g gg gb f cx cx' Hc body [] Hs).
+  apply bind_ext. intro nodes. apply bind_ext. intro t1. now apply IH.
+Qed.
+
+Definition ge_ms (n pfx : text) (grps pre mid rest augs : list stmt) (subs : list module)
+                 (imps : list (text * module)) : modset :=
+  mkModset (mkModule n pfx grps (pre ++ mid ++ rest) augs) subs imps.
+
+Lemma grouping_extract_modset_proof : forall f n pfx grps pre B rest augs subs imps g t,
+  let ms  := ge_ms n pfx grps pre B rest augs subs imps in
+  let ms' := ge_ms n pfx (SGrouping g [] B :: grps) pre [SUses None g None [] []] rest augs
+                   subs imps in
+  clean g (top_frame ms) = true -> clean g (all_body ms) = true -> clean g (all_augs ms) = true ->
+  (expand_modset (S f) ms' = Ok t -> expand_modset (S f) ms = Ok t) /\
+  (expand_modset (S f) ms = Ok t -> expand_modset (S (S f)) ms' = Ok t).
+Proof.
+  intros f n pfx grps pre B rest augs subs imps g t ms ms' Hfr Hbody Haugs.
+  set (fr := top_frame ms).
+  set (R := rest ++ flat_map m_body subs).
+  assert (Eb : all_body ms = pre ++ B ++ R).
+  { unfold all_body, ms, ge_ms, R. cbn [ms_main ms_subs m_body]. now rewrite <- !app_assoc. }
+  assert (Eb' : all_body ms' = pre ++ SUses None g None [] [] :: R).
+  { unfold all_body, ms', ge_ms, R. cbn [ms_main ms_subs m_body]. rewrite <- !app_assoc.
+    reflexivity. }
+  assert (Ea : all_augs ms' = all_augs ms) by reflexivity.
+  assert (Ec : top_ctx ms = mkCtx [fr] (modenv_of ms)) by reflexivity.
+  assert (Ec' : top_ctx ms' = mkCtx [SGrouping g [] B :: fr] (modenv_of ms')) by reflexivity.
+  assert (Hm : me_same (modenv_of ms) (modenv_of ms')) by (split; reflexivity).
+  assert (Hcs : clean_scopes g [fr]) by (constructor; [exact Hfr|constructor]).
+  rewrite Eb, !clean_app in Hbody. apply andb_true_iff in Hbody. destruct Hbody as [Hpre HBR].
+  apply andb_true_iff in HBR. destruct HBR as [HB HR].
+  assert (Hi : ctx_ins g (SGrouping g [] B) (top_ctx ms) (top_ctx ms')).
+  { rewrite Ec, Ec'. split; [exact Hm|]. split; [constructor|exact Hcs]. }
+  unfold expand_modset. rewrite Ea, Eb, Eb'. split; intro H.
+  - destruct (expand (S f) (top_ctx ms') [] (pre ++ SUses None g None [] [] :: R)) as [t0| |] eqn:E;
+      cbn [bind] in H; try discriminate.
+    rewrite expand_app in E. rewrite <- (expand_unused g [] B (S f) _ _ Hi pre [] Hpre) in E.
+    rewrite expand_app.
+    destruct (expand (S f) (top_ctx ms) [] pre) as [a| |]; cbn [bind] in *; try discriminate.
+    rewrite Ec, Ec' in *.
+    apply (proj1 (grouping_extract_gen f fr [] _ _ a g B R t0 Hm Hcs HB HR)) in E.
+    rewrite E. cbn [bind]. rewrite <- Ec, <- Ec' in *.
+    now rewrite (apply_augments_unused g [] B (S f) _ _ Hi _ t0 Haugs).
+  - destruct (expand (S f) (top_ctx ms) [] (pre ++ B ++ R)) as [t0| |] eqn:E;
+      cbn [bind] in H; try discriminate.
+    rewrite expand_app in E. rewrite expand_app.
+    rewrite <- (expand_unused g [] B (S (S f)) _ _ Hi pre [] Hpre).
+    destruct (expand (S f) (top_ctx ms) [] pre) as [a| |] eqn:Ep; cbn [bind] in *; try discriminate.
+    rewrite (expand_fuel_mono _ _ _ _ _ Ep). cbn [bind].
+    rewrite Ec, Ec' in *.
+    apply (proj2 (grouping_extract_gen f fr [] _ _ a g B R t0 Hm Hcs HB HR)) in E.
+    match goal with |- bind ?x _ = _ => replace x with (Ok t0) by (symmetry; exact E) end.
+    cbn [bind]. rewrite <- Ec, <- Ec' in *.
+    rewrite <- (apply_augments_unused g [] B (S (S f)) _ _ Hi _ t0 Haugs).
+    now apply apply_augments_mono.
+Qed.
+
+Lemma grouping_extract_compile_proof : forall f n pfx grps pre B rest augs subs imps g t,
+  let ms  := ge_ms n pfx grps pre B rest augs subs imps in
+  let ms' := ge_ms n pfx (SGrouping g [] B :: grps) pre [SUses None g None [] []] rest augs
+                   subs imps in
+  clean g (top_frame ms) = true -> clean g (all_body ms) = true -> clean g (all_augs ms) = true ->
+  (compile_modset (S f) ms' = Ok t -> compile_modset (S f) ms = Ok t) /\
+  (compile_modset (S f) ms = Ok t -> compile_modset (S (S f)) ms' = Ok t).
+Proof.
+  intros f n pfx grps pre B rest augs subs imps g t ms ms' H1 H2 H3.
+  unfold compile_modset. split; intro H.
+  - destruct (expand_modset (S f) ms') as [t0| |] eqn:E; cbn [bind] in H; try discriminate.
+    apply (proj1 (grouping_extract_modset_proof f n pfx grps pre B rest augs subs imps g t0
+                    H1 H2 H3)) in E.
+    fold ms in E. now rewrite E.
+  - destruct (expand_modset (S f) ms) as [t0| |] eqn:E; cbn [bind] in H; try discriminate.
+    apply (proj2 (grouping_extract_modset_proof f n pfx grps pre B rest augs subs imps g t0
+                    H1 H2 H3)) in E.
+    fold ms' in E. now rewrite E.
 Qed.
